@@ -117,3 +117,71 @@ def bls_aggregate_binding(ctx, clause):
                    require=['p#2'], desc='(vks) <- vks')
     ctx.arg_origin(clause, 'mithril_stm::*::BlsSignature::verify_aggregate', 'mithril_stm::*::BlsSignature::aggregate', 1,
                    require=['p#3'], desc='(sigs) <- sigs')
+
+
+MK = 'mithril_merkle_tree::merkle_tree::MKProof'
+MKM = 'mithril_merkle_tree::merkle_map::MKMapProof'
+
+
+def mkmap_verify_rules(ctx, clause):
+    """MKMapProof::verify: every sub proof verified recursively, master verified, master contains key+sub_root of
+    every sub proof (C09-d; C11 relies on it for the nested block-range map proofs)."""
+    from engine import Sink
+    R = ctx.report
+    # sub proofs are MKMapProof values: each must be verified recursively (its own sub proofs and linkage included),
+    # not only its master proof
+    def _on_sub(body, c):
+        from engine import fn_origins as _fo
+        return any(glob_match('pty:MKMapProof.sub_proofs*', o) for o in _fo(body.fn, c.args[0], True)) and \
+            not any(glob_match('pty:MKMapProof.master_proof*', o) for o in _fo(body.fn, c.args[0], 'adapters'))
+    ctx.r1(clause, MKM + '::verify', Sink('recursive MKMapProof::verify of each sub proof', [MKM + '::verify'], 'ok', per_item=True, arg_filter=_on_sub))
+    mv = ctx.try_fn(clause, MKM + '::verify')
+    if mv is not None:
+        body = mv.body
+        # master verified: a verify call whose receiver derives from self.master_proof, outside the loop
+        from engine import loop_body_entry, track_result, success_reachable
+        masters = [c for c in body.calls() if any(glob_match(MK + '::verify', n) or glob_match(MKM + '::verify', n) for n in c.names())
+                   and has(fn_origins(mv, c.args[0], True), 'pty:MKMapProof.master_proof')]
+        removed = set()
+        for c in masters:
+            removed |= track_result(body, c.dest[0], +1).success_edges
+        if masters and not success_reachable(body, removed, 'ok'):
+            R.ok(clause, 'R1', 'MKMapProof::verify => master_proof.verify()=ok', '', mv.loc())
+        else:
+            R.violation(clause, 'R1', 'MKMapProof::verify => master_proof.verify()=ok', 'mkmap:master-verify',
+                        'Ok reachable without a successful verification of master_proof', mv.loc())
+        conts = [c for c in body.calls() if any(glob_match(MK + '::contains', n) for n in c.names())
+                 and has(fn_origins(mv, c.args[0], True), 'pty:MKMapProof.master_proof')]
+        emp = [c for c in body.calls() if any(glob_match('*::is_empty', n) for n in c.names())
+               and has(fn_origins(mv, c.args[0], True), 'pty:MKMapProof.sub_proofs')]
+        problems = []
+        if not conts:
+            problems.append('no master_proof.contains(..) call')
+        else:
+            rem = set()
+            for c in conts:
+                rem |= track_result(body, c.dest[0], +1).success_edges
+            # the only way around the linkage check is the sub_proofs.is_empty() == true arm
+            for c in emp:
+                rem |= track_result(body, c.dest[0], +1).success_edges
+            if not emp:
+                problems.append('linkage check is not skipped exclusively for an empty sub-proof list')
+            if success_reachable(body, rem, 'ok'):
+                problems.append('Ok reachable without master_proof.contains(..)=ok although sub-proofs exist')
+            # what is looked up: key + sub-root of every sub proof
+            for c in conts:
+                og = fn_origins(mv, c.args[1], True)
+                cl_ok = False
+                for g in mv.family():
+                    if g is mv:
+                        continue
+                    names = [cc.best() for cc in g.body.calls()]
+                    if any('compute_root' in n for n in names) and any(glob_match('*::Add*::add', n) or 'add' in n.rsplit('::', 1)[-1] for n in names):
+                        cl_ok = True
+                if not (has(og, 'pty:MKMapProof.sub_proofs') and cl_ok):
+                    problems.append('the looked-up leaves are not key + sub_root over self.sub_proofs')
+        if problems:
+            R.violation(clause, 'R1', 'MKMapProof::verify: master contains key+sub_root for every sub-proof', 'mkmap:linkage', '; '.join(problems), mv.loc())
+        else:
+            R.ok(clause, 'R1', 'MKMapProof::verify: master contains key+sub_root for every sub-proof', '', mv.loc())
+
